@@ -18,14 +18,27 @@ namespace {
         uint64_t pay = 0;
         Val() {}
         explicit Val( int64_t u ) : uid( u ), pay( mix64( uint64_t( u ))) {}
+        Val( Val const& o ) { payload_copy( reinterpret_cast<uint64_t*>( this ), reinterpret_cast<uint64_t const*>( &o ), 2 ); }
+        Val& operator=( Val const& o ) { payload_copy( reinterpret_cast<uint64_t*>( this ), reinterpret_cast<uint64_t const*>( &o ), 2 ); return *this; }
         bool good() const { return pay == mix64( uint64_t( uid )); }
     };
     int64_t bad_uid( Val const& v ) { return ( int64_t( 1 ) << 62 ) | ( v.uid & 0xffffff ); }
+    // The cell of a Vyukov queue is cleaned (opt::value_cleaner; by default the destructor of a non-trivially-destructible value) after
+    // the value has been handed out and before the cell is given back to producers. Both cleaners below wipe the value, so a cleaner
+    // that runs on a cell a producer already owns again shows up as a corrupt element.
+    struct ValD: Val {
+        ValD() {}
+        explicit ValD( int64_t u ) : Val( u ) {}
+        ValD( ValD const& o ) : Val( o ) {}
+        ValD& operator=( ValD const& o ) { Val::operator=( o ); return *this; }
+        ~ValD() { uid = -99; pay = 0xDEADDEADDEADDEADull; }
+    };
+    struct ResetCleaner { void operator()( Val& v ) const { v.uid = 0; v.pay = 0xC1EA4EDull; } };
 
     std::atomic<uint64_t> g_full{ 0 }, g_empty{ 0 }, g_pushed{ 0 };
 
     // ---------------------------------------------------------------- Vyukov, value form
-    template <class Q, size_t Cap>
+    template <class Q, size_t Cap, class V = Val>
     struct VyAdapter: NoAttach {
         Q q;
         VyAdapter() : q( Cap ) {}
@@ -36,16 +49,16 @@ namespace {
             case S_PUSH_BACK: {
                 bool ok;
                 switch ( uid % 3 ) {
-                case 0: ok = q.enqueue( Val( uid )); break;
-                case 1: ok = q.push( Val( uid )); break;
-                default: ok = q.enqueue_with( [uid]( Val& dst ) { dst = Val( uid ); } ); break;
+                case 0: ok = q.enqueue( V( uid )); break;
+                case 1: ok = q.push( V( uid )); break;
+                default: ok = q.enqueue_with( [uid]( V& dst ) { dst = V( uid ); } ); break;
                 }
                 if ( ok ) g_pushed.fetch_add( 1, std::memory_order_relaxed ); else g_full.fetch_add( 1, std::memory_order_relaxed );
                 return ok ? 1 : 0;
             }
             case S_POP_FRONT: {
-                Val v;
-                bool ok = ( uid & 1 ) ? q.dequeue( v ) : q.dequeue_with( [&v]( Val& src ) { v = src; } );
+                V v;
+                bool ok = ( uid & 1 ) ? q.dequeue( v ) : q.dequeue_with( [&v]( V& src ) { v = src; } );
                 if ( !ok ) { g_empty.fetch_add( 1, std::memory_order_relaxed ); return -1; }
                 return v.good() ? v.uid : bad_uid( v );
             }
@@ -148,6 +161,8 @@ namespace {
 
     template <class Buffer, class IC, class MM, class BO>
     struct vy_traits: cc::vyukov_queue::traits { typedef Buffer buffer; typedef IC item_counter; typedef MM memory_model; typedef BO back_off; };
+    template <class Buffer, class IC, class MM, class BO, class Cleaner>
+    struct vy_traits_cl: vy_traits<Buffer, IC, MM, BO> { typedef Cleaner value_cleaner; };
     template <class Buffer>
     struct vyi_traits: ci::vyukov_queue::traits { typedef Buffer buffer; typedef cds::atomicity::item_counter item_counter; };
 
@@ -223,6 +238,9 @@ int main( int argc, char** argv )
             run_vyukov< VyAdapter< cc::VyukovMPMCCycleQueue<Val, vy_traits<uninitialized_dynamic_buffer<Val>, IC, Rlx, BoD>>, 5 >>( "VyukovMPMC<dyn5to8,ic>", false );
             run_vyukov< VyAdapter< cc::VyukovMPMCCycleQueue<Val, vy_traits<uninitialized_static_buffer<Val, 2>, IC, Rlx, BoE>>, 2 >>( "VyukovMPMC<static2,ic>", false );
             run_vyukov< VyAdapter< cc::VyukovMPMCCycleQueue<Val, vy_traits<uninitialized_static_buffer<Val, 8>, NoIC, Sc, BoD>>, 8 >>( "VyukovMPMC<static8,seqcst>", false );
+            run_vyukov< VyAdapter< cc::VyukovMPMCCycleQueue<Val, vy_traits_cl<uninitialized_dynamic_buffer<Val>, IC, Rlx, BoE, ResetCleaner>>, 2 >>( "VyukovMPMC<dyn2,ic,reset_cleaner>", false );
+            run_vyukov< VyAdapter< cc::VyukovMPMCCycleQueue<ValD, vy_traits<uninitialized_dynamic_buffer<ValD>, NoIC, Rlx, BoD>>, 2, ValD >>( "VyukovMPMC<dyn2,dtor_value>", false );
+            run_vyukov< VyAdapter< cc::VyukovMPMCCycleQueue<ValD, vy_traits<uninitialized_dynamic_buffer<ValD>, IC, Sc, BoE>>, 4, ValD >>( "VyukovMPMC<dyn4,ic,seqcst,dtor_value>", false );
             run_vyukov< VyIntrAdapter< ci::VyukovMPMCCycleQueue<Item, vyi_traits<uninitialized_dynamic_buffer<Item*>>>, 2 >>( "IntrusiveVyukovMPMC<dyn2>", false );
             run_vyukov< VyIntrAdapter< ci::VyukovMPMCCycleQueue<Item, vyi_traits<uninitialized_static_buffer<Item*, 4>>>, 4 >>( "IntrusiveVyukovMPMC<static4>", false );
             run_vyukov< VyScAdapter< cc::VyukovMPSCCycleQueue<Val, vy_traits<uninitialized_dynamic_buffer<Val>, IC, Rlx, BoD>>, 2 >>( "VyukovMPSC<dyn2,front/pop_front>", true );
